@@ -229,7 +229,7 @@ func (v Version) String() string {
 // Round removes all information from v which is not visible in the string
 // representation.
 func (v Version) Round() Version {
-	x := math.Round(float64(v)/65536*1000) / 1000
+	x := math.RoundToEven(float64(v)/65536*1000) / 1000
 	return Version(math.Round(x * 65536))
 }
 
